@@ -22,6 +22,8 @@ def check(run):
         extra = [genprog.matrix_program(mrng) for _ in range(60 if run.tier == "quick" else 1200)]
         drng = run.sub_rng("C01-discard")
         extra += [genprog.discard_program(drng) for _ in range(30 if run.tier == "quick" else 600)]
+        import matrixgen
+        extra += matrixgen.sources(run, "c01")
         wits, stats, cstats, srcs = semcheck.run_semantic_check(run, "C01", 120, 3000, extra_sources=extra)
     except Broken as b:
         broken.append(b)
